@@ -570,6 +570,8 @@ def eval_case(ctx, exe, case, oracle_bits=11):
         # theorem minimal_antichain needs an exact LP oracle (OracleOK). When the in-process table of solve_with_mask answers is
         # NOT consistent (a subset feasible while a superset is infeasible, or a support that is infeasible on its own) and the
         # Lean search on that very table reproduces the reported sequence, the nesting is caused by the LP answers, not by the search
+        if nest and not out["stats"].get("search_checked") and oracle_bits < 16 and res["rc"] == 0:
+            return eval_case(ctx, exe, case, oracle_bits=16)      # tabulate the LP answers to attribute the nesting
         if nest and out["stats"].get("search_checked") and out["stats"].get("oracle_ok") is False and \
                 not any(c["what"].startswith("search differs") for c in out["corr"]) and not diffs:
             out["findings"].append({"key": "minimal-inconsistent-lp", "model": nest[0]["model"], "bits": reported,
@@ -635,7 +637,7 @@ def shrink_case(ctx, exe, case, kind):
     def fails(sub):
         c = dict(case, input="\n".join(head + sub))
         try:
-            r = eval_case(ctx, exe, c, oracle_bits=0)
+            r = eval_case(ctx, exe, c, oracle_bits=11)
         except Exception:
             return False
         return any(v["kind"] == kind for v in r["viol"])
@@ -721,7 +723,7 @@ def run(ctx):
         if r["viol"] and not ctx.violations:
             kind = r["viol"][0]["kind"]
             small = shrink_case(ctx, exe, c, kind) if kind != "crash" else c
-            r2 = eval_case(ctx, exe, small, 0)
+            r2 = eval_case(ctx, exe, small, 11)
             v = [x for x in r2["viol"] if x["kind"] == kind] or r["viol"]
             if not [x for x in r2["viol"] if x["kind"] == kind]:
                 small = c
